@@ -29,10 +29,17 @@ Definition show_step (st : step) : string :=
   | SSymlink t p => "s:" ++ show_hex t ++ ":" ++ show_hex p
   end.
 
-(** (names to print, initial state, target, history) ->
-    "S:" the atomic steps of the history, "C:" the state after every prefix of them *)
-Definition run_show (c : list path * fs * path * list op) : string :=
-  let '(names, s, target, ops) := c in
-  let l := progs target ops in
+(** "S:" the atomic steps, "C:" the state after every prefix of them *)
+Definition show_run (names : list path) (s : fs) (l : list step) : string :=
   "S:" ++ String.concat ";" (map show_step l)
   ++ "|C:" ++ String.concat ";" (map (fun pre => show_state names (run s pre)) (prefixes l)).
+
+Inductive case :=
+| CRepl (names : list path) (s : fs) (target : path) (ops : list op)   (* a history of replacements *)
+| CMove (names : list path) (s : fs) (src dst tD tS : path).            (* one cross-device moveTo *)
+
+Definition run_show (c : case) : string :=
+  match c with
+  | CRepl names s target ops => show_run names s (progs target ops)
+  | CMove names s src dst tD tS => show_run names s (move_prog s src dst tD tS)
+  end.
